@@ -403,6 +403,101 @@ static void run_cmd(int ntok, char **tok) {
         if(dls[d]) { ev_int("has_boundary", dls[d]->boundary != NULL); if(dls[d]->boundary && strlen(dls[d]->boundary) < 200) ev_str("boundary", dls[d]->boundary); }
         ev_end(); free(x); free(b);
     }
+    else if(!strcmp(op, "fetch")) {
+        /* fetch <d> <c> <Bpath> <limit> <frag> [k=v ...]
+         * One round of the documented update loop against an in-process "server" holding B:
+         *   zck_dl_reset; range = zck_get_missing_range(ctx, limit); zck_dl_set_range;
+         *   the response for exactly those ranges is built (plain body for one range, multipart/byteranges
+         *   otherwise), its header lines go to zck_header_cb and its body to zck_write_chunk_cb in fragments.
+         * options: boundary=STR quoted=1 extra=1 (extra part headers) leadcrlf=0 forcemulti=1 lower=1
+         *          corrupt=N (flip bit 0 of payload byte N of the response, counted over payload bytes only)
+         *          cuts=a,b,c (explicit fragment boundaries in the body stream; overrides frag)
+         *          hdrfrag=1 (each header line in its own call - always the case) stop=N (deliver only N body bytes) */
+        int d = C(1), c = C(2); const char *bpath = A(3); int limit = (int)AI(4); long frag = (long)AI(5);
+        const char *boundary = "zckBOUNDARYzck"; int quoted = 0, extra = 0, leadcrlf = 1, forcemulti = 0, lower = 0; long corrupt = -1, stop = -1;
+        char cutsbuf[4096] = "";
+        for(int k = 6; k < ntok; k++) {
+            if(!strncmp(tok[k], "boundary=", 9)) boundary = tok[k] + 9;
+            else if(!strncmp(tok[k], "quoted=", 7)) quoted = atoi(tok[k] + 7);
+            else if(!strncmp(tok[k], "extra=", 6)) extra = atoi(tok[k] + 6);
+            else if(!strncmp(tok[k], "leadcrlf=", 9)) leadcrlf = atoi(tok[k] + 9);
+            else if(!strncmp(tok[k], "forcemulti=", 11)) forcemulti = atoi(tok[k] + 11);
+            else if(!strncmp(tok[k], "lower=", 6)) lower = atoi(tok[k] + 6);
+            else if(!strncmp(tok[k], "corrupt=", 8)) corrupt = atol(tok[k] + 8);
+            else if(!strncmp(tok[k], "stop=", 5)) stop = atol(tok[k] + 5);
+            else if(!strncmp(tok[k], "cuts=", 5)) snprintf(cutsbuf, sizeof cutsbuf, "%s", tok[k] + 5);
+        }
+        zckDL *dl = dls[d]; zckCtx *z = ctxs[c];
+        zck_dl_reset(dl);
+        if(ranges[0]) zck_range_free(&ranges[0]);
+        zckRange *r = zck_get_missing_range(z, limit); ranges[0] = r;
+        ev_begin("fetch"); ev_int("limit", limit);
+        if(!r) { ev_int("ret", 0); ev_end(); }
+        else {
+            (void)zck_dl_set_range(dl, r);
+            dump_range(r);
+            int bfd = open(bpath, O_RDONLY); struct stat st; fstat(bfd, &st);
+            int nr = 0; for(zckRangeItem *it = r->first; it; it = it->next) nr++;
+            if(nr == 0) { close(bfd); ev_int("ret", 1); ev_int("nranges", 0); ev_int("calls", 0); ev_int("okcalls", 0); ev_int("firstfail", -1);
+                          ev_int("err", zck_is_error(z)); ev_valid(z); ev_int("missing", zck_missing_chunks(z)); ev_int("failed", zck_failed_chunks(z)); ev_end();
+                          (void)zck_dl_set_range(dl, NULL); zck_range_free(&ranges[0]); return; }
+            /* build the response */
+            size_t cap = 4096; for(zckRangeItem *it = r->first; it; it = it->next) cap += (it->end - it->start + 1) + 512 + strlen(boundary);
+            char *body = malloc(cap); size_t bl = 0; long payload_seen = 0;
+            char hdr[1024];
+            int multi = nr > 1 || forcemulti;
+            for(zckRangeItem *it = r->first; it; it = it->next) {
+                size_t len = it->end - it->start + 1;
+                if(multi) {
+                    bl += snprintf(body + bl, cap - bl, "%s--%s\r\n%s%s: bytes %llu-%llu/%lld\r\n\r\n", (it == r->first && !leadcrlf) ? "" : "\r\n", boundary,
+                                   extra ? "Content-Type: application/octet-stream\r\nX-Extra: 1\r\n" : "Content-Type: application/octet-stream\r\n",
+                                   lower ? "content-range" : "Content-Range", (unsigned long long)it->start, (unsigned long long)it->end, (long long)st.st_size);
+                }
+                ssize_t got = pread(bfd, body + bl, len, it->start);
+                if(got < (ssize_t)len) memset(body + bl + (got < 0 ? 0 : got), 0, len - (got < 0 ? 0 : got));
+                if(corrupt >= payload_seen && corrupt < payload_seen + (long)len) body[bl + (corrupt - payload_seen)] ^= 1;
+                payload_seen += len; bl += len;
+            }
+            if(multi) bl += snprintf(body + bl, cap - bl, "\r\n--%s--\r\n", boundary);
+            close(bfd);
+            /* header lines */
+            long hret = 0; int hcalls = 0;
+            const char *l1 = "HTTP/1.1 206 Partial Content\r\n";
+            char *x = strdup(l1); hret += zck_header_cb(x, 1, strlen(l1), dl) == strlen(l1); hcalls++; free(x);
+            if(multi) snprintf(hdr, sizeof hdr, quoted ? "Content-Type: multipart/byteranges; boundary=\"%s\"\r\n" : "Content-Type: multipart/byteranges; boundary=%s\r\n", boundary);
+            else snprintf(hdr, sizeof hdr, "Content-Range: bytes %llu-%llu/%lld\r\n", (unsigned long long)r->first->start, (unsigned long long)r->first->end, (long long)st.st_size);
+            x = strdup(hdr); hret += zck_header_cb(x, 1, strlen(hdr), dl) == strlen(hdr); hcalls++; free(x);
+            x = strdup("\r\n"); hret += zck_header_cb(x, 1, 2, dl) == 2; hcalls++; free(x);
+            /* body fragments */
+            size_t total = (stop >= 0 && (size_t)stop < bl) ? (size_t)stop : bl;
+            size_t pos = 0; long calls = 0, okcalls = 0; long firstfail = -1; size_t failpos = 0;
+            char *cp = cutsbuf; 
+            while(pos < total) {
+                size_t n;
+                if(cutsbuf[0]) { size_t next = total; while(*cp) { char *e; size_t v = strtoull(cp, &e, 10); cp = (*e == ',') ? e + 1 : e; if(v > pos) { next = v < total ? v : total; break; } } n = next - pos; if(n == 0) n = total - pos; }
+                else n = (frag > 0 && (size_t)frag < total - pos) ? (size_t)frag : total - pos;
+                char *fr = malloc(n); memcpy(fr, body + pos, n);
+                size_t rr = zck_write_chunk_cb(fr, 1, n, dl);
+                free(fr); calls++;
+                if(rr == n) okcalls++; else { if(firstfail < 0) { firstfail = calls; failpos = pos; } break; }   /* a transport aborts on a short return */
+                pos += n;
+            }
+            ev_int("ret", 1); ev_int("nranges", nr); ev_int("multi", multi); ev_int("bodylen", (long long)bl); ev_int("hdrok", hret == hcalls);
+            ev_int("calls", calls); ev_int("okcalls", okcalls); ev_int("firstfail", firstfail); ev_int("failpos", (long long)failpos); ev_int("delivered", (long long)pos);
+            ev_int("err", zck_is_error(z)); ev_valid(z);
+            ev_int("missing", zck_missing_chunks(z)); ev_int("failed", zck_failed_chunks(z));
+            ev_end();
+            free(body);
+            (void)zck_dl_set_range(dl, NULL);
+            zck_range_free(&ranges[0]);
+        }
+    }
+    else if(!strcmp(op, "snapshot")) {
+        /* snapshot <f> <path>: copy the current contents of the file behind descriptor slot f */
+        int f = C(1); int o = open(A(2), O_WRONLY | O_CREAT | O_TRUNC, 0666); char b[65536]; off_t off = 0; ssize_t r;
+        while((r = pread(fds[f], b, sizeof b, off)) > 0) { ssize_t w = __real_write(o, b, r); (void)w; off += r; }
+        close(o); ev_begin("snapshot"); ev_int("f", f); ev_int("size", (long long)off); ev_str("path", A(2)); ev_end();
+    }
     else if(!strcmp(op, "ftruncate")) { int f = C(1); int r = ftruncate(fds[f], (off_t)AI(2)); ev_begin("ftruncate"); ev_int("f", f); ev_int("ret", r); ev_end(); }
     else if(!strcmp(op, "truncate_to_length")) { int f = C(1), c = C(2); ssize_t L = zck_get_length(ctxs[c]); int r = ftruncate(fds[f], L); ev_begin("truncate_to_length"); ev_int("len", (long long)L); ev_int("ret", r); ev_end(); }
     else if(!strcmp(op, "seek")) { int f = C(1); off_t r = __real_lseek(fds[f], (off_t)AI(2), SEEK_SET); ev_begin("seek"); ev_int("f", f); ev_int("ret", (long long)r); ev_end(); }
